@@ -54,7 +54,8 @@ def stimuli(tier, seed, ctx):
     for _ in range(250 if tier == 'quick' else 5000):
         n = rnd.choice([1, 2, 2, 3, 3, 3, 4])
         cfg = _rand_cfg(rnd, n)
-        cbfail = rnd.random() < 0.12
+        # the first evaluation of a combinational block raises, or yields no valid output (UNDEF)
+        cbfail = rnd.choice(['raise', 'undef']) if rnd.random() < 0.15 else False
         cleanup = rnd.random() < 0.4
         perms = list(itertools.permutations(range(1, n + 1)))
         if n == 4:
@@ -151,6 +152,8 @@ def execute(stim):
                     storage[blocks[b].key] = 'S'
 
             def fn(x):
+                if stim['cbfail'] == 'undef':
+                    return edzed.UNDEF
                 if stim['cbfail']:
                     raise RuntimeError('scripted calc_output failure')
                 return 1
